@@ -608,6 +608,12 @@ func topStmtBefore(rel, fn, a, b string) bool {
 // ---------------------------------------------------------------------------------------------
 // the goroutine compactionError as a state machine (C09/C18, Model/CompErr.lean)
 
+// ifBodyHasLoopMark: the text starts with `for _, fd := range all {` and its first statement is `s.markFileNum(fd.Num)`.
+func ifBodyHasLoopMark(t string) bool {
+	f := strings.Fields(t)
+	return strings.HasPrefix(strings.Join(f, " "), "for _, fd := range all { s.markFileNum(fd.Num) }")
+}
+
 func stmtText(n ast.Node) string {
 	var buf bytes.Buffer
 	// comments attached to declarations inside the node are not part of the statement
@@ -1623,6 +1629,18 @@ func main() {
 			last == "return s.commit(rec, false)"
 	}(),
 		"`recoverTable` contains no call of `s.create()`, `newManifest` or `SetMeta`; its only commit is its last statement `return s.commit(rec, false)` (with `s.manifest == nil` that is `newManifest(rec, nv)`: the D33 repair)")
+	o.boolean("recoverMarksAllFileNums", func() bool {
+		// `all, err := s.stor.List(storage.TypeAll)` … `for _, fd := range all { s.markFileNum(fd.Num) }` before the only
+		// `s.commit(` of recoverTable (the manifest number is allocated inside it)
+		t := funcText("leveldb/db.go", "recoverTable")
+		a := strings.Index(t, "s.stor.List(storage.TypeAll)")
+		b := strings.Index(t, "for _, fd := range all {")
+		c := strings.Index(t, "s.commit(")
+		return a >= 0 && b > a && c > b &&
+			ifBodyHasLoopMark(t[b:c])
+	}(),
+		"`recoverTable` marks every file number `s.stor.List(storage.TypeAll)` returns (`for _, fd := range all { s.markFileNum(fd.Num) }`) before its `s.commit`: the manifest Recover writes is numbered above every file in the storage (the D47 repair; `Model/RecoverOps.manifestNum`)")
+
 	o.boolean("newManifestWriteSyncSetMeta",
 		textBefore("leveldb/session_util.go", "session.newManifest", "s.stor.Create(fd)", "rec.encode(w)") &&
 			textBefore("leveldb/session_util.go", "session.newManifest", "rec.encode(w)", "jw.Flush()") &&
